@@ -32,6 +32,21 @@ def document(submodels, tz="America/Chicago", profile="current", overrides=None,
             "settings": st}
 
 
-def load(doc, billing=False):
+def reorder(doc, how):
+    """the same JSON value with the members of every object in another order (a JSON object is unordered: a document that
+    went through a key-sorting serialiser or a jsonb column is the same document)"""
+    if isinstance(doc, dict):
+        keys = sorted(doc) if how == "sorted" else list(reversed(list(doc)))
+        return {k: reorder(doc[k], how) for k in keys}
+    if isinstance(doc, list):
+        return [reorder(x, how) for x in doc]
+    return doc
+
+
+def load(doc, billing=False, order=None):
+    import json
     import opendsm.eemeter as em
-    return (em.BillingModel if billing else em.DailyModel).from_dict(doc)
+    cls = em.BillingModel if billing else em.DailyModel
+    if order:
+        return cls.from_json(json.dumps(reorder(doc, order)))
+    return cls.from_dict(doc)
